@@ -69,6 +69,14 @@ func Main(args []string) int {
 		}
 	}
 	full(nil)
+	// a clock that stands still, and one that runs backwards, for more chunks than one decimal digit of the sequence number counts
+	still, back := []int64{}, []int64{}
+	for k := int64(0); k < 25; k++ {
+		still = append(still, 7)
+		back = append(back, 1000-k)
+	}
+	runSeq(still)
+	runSeq(back)
 	rnd := rand.New(rand.NewSource(o.Seed))
 	for i := 0; i < 200; i++ {
 		seq := []int64{}
